@@ -48,7 +48,8 @@ theorem aclGate_none_iff (h : Handler) (r : Req) :
 theorem localGate_pass (h : Handler) (r : Req) (c : Nat) (hp : localGate h r = .pass c) :
     wsCheck r = false ∧
     (h.enforceHost = true → checkHost h r = true) ∧
-    (h.enforceOrigin = true → (getOrigin r).ok = true ∧ originAllowed h (getOrigin r) = true) := by
+    (h.enforceOrigin = true →
+      originStr r ≠ [] ∧ (getOrigin r).ok = true ∧ originAllowed h (getOrigin r) = true) := by
   unfold localGate localGateWith at hp
   split at hp
   · cases hp
@@ -69,7 +70,8 @@ theorem localGate_pass (h : Handler) (r : Req) (c : Nat) (hp : localGate h r = .
           split at hp
           · cases hp
           · rename_i hal
-            exact ⟨by simpa using hok, by simpa using hal⟩
+            simp at hok
+            exact ⟨hok.1, hok.2, by simpa using hal⟩
 
 /-- the local half of the gate never looks at the path -/
 theorem localGate_withPath (h : Handler) (r : Req) (p : Bytes) :
